@@ -223,6 +223,22 @@ Qed.
 Lemma restrict_nil {A} (l : list A) : restrict l [] = l.
 Proof. reflexivity. Qed.
 
+Lemma norm_rstat_fold_length l : forall r : list ascii,
+  length (fold_left (fun r it => let i := Z.to_nat (fst it) in
+            if (negb (Ascii.eqb (snd it) "R") && stat_in r i "2")%bool
+            then upd_nth i (fun _ => "1"%char) r else r) l r) = length r.
+Proof.
+  induction l as [|it l IH]; intros r; simpl; [reflexivity|].
+  rewrite IH. destruct (negb (Ascii.eqb (snd it) "R") && stat_in r (Z.to_nat (fst it)) "2")%bool; [apply upd_nth_length|reflexivity].
+Qed.
+
+Lemma inv_norm_rstat s l : Inv_dims s -> Inv_dims (norm_rstat s l).
+Proof.
+  intros [A B]. split; simpl; [|exact B].
+  intros b H. destruct (a_basis s) as [b0|] eqn:E; [|discriminate]. inversion H; subst; simpl.
+  destruct (A b0 eq_refl) as [A1 A2]. rewrite norm_rstat_fold_length. split; assumption.
+Qed.
+
 Theorem api_edit_dims s o : Inv_dims s -> Inv_dims (fst (api_edit M s o)).
 Proof.
   intros I. unfold api_edit. destruct (pstep M (a_p s) o) as [p' r] eqn:P. destruct r as [t| |]; simpl; try exact I.
@@ -230,7 +246,8 @@ Proof.
   destruct o; simpl; simpl in D;
     try (destruct D as [D1 D2]; apply inv_same_dims; assumption);
     try (destruct D as [D1 D2]; apply inv_free; apply inv_same_dims; assumption);
-    try (destruct D as [D1 D2]; apply inv_free; apply inv_factor; apply inv_same_dims; assumption).
+    try (destruct D as [D1 D2]; apply inv_free; apply inv_factor; apply inv_same_dims; assumption);
+    try (destruct D as [D1 D2]; apply inv_free; apply inv_factor; apply inv_norm_rstat; apply inv_same_dims; assumption).
   - destruct D as [D1 D2]. apply (inv_ext_c s p' [col_stat M lo up]); [exact I|simpl; lia|exact D2].
   - destruct D as [D1 D2]. apply (inv_ext_c s p' [col_stat M lo up]); [exact I|simpl; lia|exact D2].
   - destruct D as [D1 D2]. apply inv_ext_c; [exact I|rewrite map_length; exact D1|exact D2].
